@@ -11,14 +11,31 @@ import ast, sys, importlib.abc, importlib.machinery, os
 
 ROOT = os.path.join(os.environ.get("VERIF_REPO", "/repo"), "gfapy")
 
+STUB_MESSAGES = [True]
+
 class _Stub(ast.NodeTransformer):
+  """(1) optional: error-message arguments -> constant;  (2) always: docstrings of gfapy's functions and
+  classes are dropped.  CrossHair's PEP316 parser reads the 'Raises:' sections of gfapy's Google-style
+  docstrings as contracts and then *enforces* them on every call (deep-copying the arguments, which fails on
+  SegmentEnd/OrientedLine); the docstrings carry no behaviour."""
   def visit_Raise(self, node):
     self.generic_visit(node)
     exc = node.exc
-    if isinstance(exc, ast.Call) and exc.args:
+    if STUB_MESSAGES[0] and isinstance(exc, ast.Call) and exc.args:
       exc.args = [ast.Constant(value="<msg>")]
       exc.keywords = []
     return node
+
+  def _strip_doc(self, node):
+    self.generic_visit(node)
+    b = node.body
+    if b and isinstance(b[0], ast.Expr) and isinstance(b[0].value, ast.Constant) and isinstance(b[0].value.value, str):
+      node.body = b[1:] or [ast.Pass()]
+    return node
+
+  visit_FunctionDef = _strip_doc
+  visit_AsyncFunctionDef = _strip_doc
+  visit_ClassDef = _strip_doc
 
 class _Loader(importlib.machinery.SourceFileLoader):
   def get_code(self, fullname):
@@ -43,8 +60,9 @@ class _Finder(importlib.abc.MetaPathFinder):
     return spec
 
 _installed = False
-def install():
+def install(stub_messages=True):
   global _installed
+  STUB_MESSAGES[0] = stub_messages
   if _installed: return
   _installed = True
   sys.dont_write_bytecode = True
